@@ -86,8 +86,26 @@ def run_case(case):
         y = unique_affinity(n)
     if family in ("SparseLinearModel", "SparseMLPModel"):
         kw["alpha"] = 0.5
-    model = M.make(family, _route="used_set_params" if (not script and n in (3, 5, 33)) else "ctor", **kw)
-    if decorated:
+    clone_route = isinstance(mode, str) and mode.startswith("clone_bs")
+    if clone_route:
+        # scikit-learn tooling: the candidate is clone(base).set_params(batch_size=...), the base having another batch size (a grid over batch_size)
+        kw_base = dict(kw)
+        if family != "CategoricalModel":
+            kw_base["batch_size"] = (bs or n) + 2 if mode == "clone_bs_from_larger" else 1
+        base = M.make(family, **kw_base)
+        if decorated:
+            from gemclus import add_mlcl_constraint
+            base = add_mlcl_constraint(base, [(0, 1)] if n >= 2 else None, [(0, 2)] if n >= 3 else None, 0.5)
+        from sklearn.base import clone
+        model = clone(base)
+        if family != "CategoricalModel":
+            model.set_params(batch_size=bs)
+        decorated = hasattr(model._batchify, "indices")          # what a clone keeps of a decoration is the library's business; its batches are not
+        mode = "fit"
+        case = (family, n, bs, aff_mode, max_iter, decorated, script, mode)
+    else:
+        model = M.make(family, _route="used_set_params" if (not script and n in (3, 5, 33)) else "ctor", **kw)
+    if decorated and not clone_route:
         from gemclus import add_mlcl_constraint
         pairs_ml = [(0, 1)] if n >= 2 else None
         pairs_cl = [(0, 2)] if n >= 3 else None
@@ -313,6 +331,14 @@ def explorers(tier, seed):
             for bs in (None, 4):
                 for aff_mode in ("none", "computed"):
                     cases.append((family, n, bs, aff_mode, 2, False, (), "after_failed_path"))
+    for family in MODELS:
+        if family == "CategoricalModel":
+            continue
+        for n in (5, 7):
+            for bs in (2, 3, None):
+                for decorated in (False, True):
+                    for mode_ in ("clone_bs_from_larger", "clone_bs_from_one"):
+                        cases.append((family, n, bs, "none" if family == "KernelRIM" else "precomputed", 2, decorated, (), mode_))
     pc = []
     for family in ("SparseLinearModel", "SparseMLPModel"):
         for sp in ("np64", "verbose"):
